@@ -4,6 +4,8 @@ EXTENDS Options, Json
 CONSTANTS Langs, Pairs      \* Pairs = TRUE: also all pairs
 CompileOpts == { [o |-> "define", v |-> "42"], [o |-> "define", v |-> "a b"], [o |-> "std", v |-> "c99"], [o |-> "std", v |-> "c11"],
                  [o |-> "std", v |-> "gnu11"], [o |-> "std", v |-> "c17"], [o |-> "include", v |-> ""],
+                 \* an absolute include directory that the configure-time environment also lists in CPATH
+                 [o |-> "include", v |-> "cpath"],
                  [o |-> "sysinclude", v |-> "incdir"], [o |-> "sysinclude", v |-> "/usr/include"],
                  [o |-> "warning", v |-> "disable"], [o |-> "warning", v |-> "all"], [o |-> "warning", v |-> "all+error"],
                  [o |-> "debug", v |-> ""], [o |-> "optimize", v |-> "disable"], [o |-> "optimize", v |-> "speed"],
